@@ -6,3 +6,4 @@ import AgdbCodec.Props.C22
 #print axioms AgdbCodec.C22_flatten_keys_counterexample
 #print axioms AgdbCodec.kindOk_custom
 #print axioms AgdbCodec.kindOk_vi64
+#print axioms AgdbCodec.C22_update_roundtrip
